@@ -7,10 +7,13 @@ from __future__ import annotations
 
 import json
 import os
+import shutil
+import warnings
 import sys
 import time
 import traceback
 
+warnings.filterwarnings('ignore')
 VERIF = os.path.dirname(os.path.dirname(os.path.abspath(__file__)))
 REPO = os.environ.get('VERIF_REPO', '/repo')
 SPECS = os.path.join(VERIF, 'specs')
@@ -71,6 +74,7 @@ class Verdict(object):
         self.hit = {}          # known-finding id -> count
         self.violations = []   # dicts not explained by a known finding
         self.t0 = time.time()
+        shutil.rmtree(os.path.join(REPLAYS, prop), ignore_errors=True)
 
     def report(self, key, what, replay=None):
         """key: dict of identifying facts (site, input class...).  A known finding matches when
